@@ -154,6 +154,23 @@ _bptk = None
 _n = [0]
 
 
+def _stat_count(entry):
+    return sum(st.get("count", 0) for ty in entry.values() for st in ty.values())
+
+
+def one_record_per_time(m, tag, viol):
+    """what statistics() holds for a time is ONE recording of the population: its counts add up to the agents the last record call
+    for that time was handed (a second recording for a time already present replaces the first, it is not added on top)"""
+    last = {}
+    for x in m.clog:
+        if x[0] == "stat":
+            last[x[1]] = len(x[2])
+    for t, entry in m.statistics().items():
+        if float(t) in last and _stat_count(entry) != last[float(t)]:
+            viol.append(("statistics-not-one-record/%s" % tag, "t=%r: counts add up to %d, the record call was handed %d agents" % (t, _stat_count(entry), last[float(t)])))
+            break
+
+
 def run_case(case):
     global _bptk
     driver, start, stop, dt, pop, collect, script = case
@@ -171,6 +188,17 @@ def run_case(case):
         want_times = [x[1] for x in want if x[0] == "stat"]
         if len(stats_times) != len(want_times) or any(not core.close(a, b) for a, b in zip(stats_times, want_times)):
             viol.append(("statistics-keys/%s" % driver, "recorded times %r, want %r" % (stats_times[:8], want_times[:8])))
+        one_record_per_time(m, driver, viol)
+        if not viol and collect and script is None:
+            # externally driven single steps for times the run already visited (the last two steps of the run once more, the last one twice)
+            spr = round(1 / dt)
+            s_last = spr * (stop + 1) - 1                       # run_step(s) is the step at time s*dt
+            try:
+                for s_ in [x for x in (s_last - 1, s_last, s_last) if x >= max(0, spr * start)]:
+                    m.run_step(s_, collect_data=True)
+            except Exception as e:
+                return [("run_step-after-run-raises/%s" % type(e).__name__, repr(e))]
+            one_record_per_time(m, driver + "+steps-again", viol)
     elif driver == "rerun-after-error":
         # a run in which a step raises (the caller handles it), then the same model is run again: the second run executes every step
         m = mk_model(start, stop, dt, pop, "specs", script)
@@ -205,6 +233,11 @@ def run_case(case):
             got, wantf = m.clog, want
         if not same(got, wantf):
             viol.append(("sequence/steps", first_diff(got, wantf)))
+        elif collect:
+            one_record_per_time(m, "steps", viol)
+            if script is None and steps:
+                m.run_step(steps[-1], collect_data=True)      # the same single step driven twice
+                one_record_per_time(m, "steps+last-again", viol)
         elif not collect:
             # with data collection off nothing is recorded - except, at most, at the model's final time
             final_t = stop + (spr - 1) * dt
